@@ -323,6 +323,9 @@ impl World {
         *self.counters.entry(k.to_string()).or_insert(0) += n;
     }
     pub fn note(&mut self, s: String) {
+        if std::env::var("SIM_NOTES").is_ok() {
+            eprintln!("NOTE {}", s);
+        }
         if self.recent.len() >= 40 {
             self.recent.pop_front();
         }
@@ -463,6 +466,9 @@ pub fn on_scan_object(object: ObjectReference, h: &Hdr) {
         }
         w.pause.scans += 1;
         *w.pause.scanned_ids.entry(h.id).or_insert(0) += 1;
+        if std::env::var("SIM_NOTES").is_ok() {
+            eprintln!("NOTE scan_object id {} at {:?} by {}", h.id, object, std::thread::current().name().unwrap_or("?"));
+        }
     });
 }
 
